@@ -406,12 +406,19 @@ def _compile_objects(
 
         logger.info(f"JIT C compiler finished in {time.time() - t0:.4f}")
 
-        # Create a "status ready" file. If this fails, it is an error,
+        # Create a "status ready" file. If it exists already, it is an error,
         # because it should not exist yet.
-        # Copy the stdout verbose output of the build into the ready file
-        fd = open(ready_name, "x")
-        fd.write(s)
-        fd.close()
+        # Copy the stdout verbose output of the build into the ready file.
+        # The file is written under a temporary name and renamed, so that
+        # the marker only ever appears complete: a failure while writing it
+        # must not leave a marker behind for a build that is reported as failed
+        # (the next build would then fail when it finds it).
+        if ready_name.exists():
+            raise FileExistsError(f"JIT ready marker {ready_name} exists already")
+        tmp_name = ready_name.with_suffix(".cached.tmp")
+        with open(tmp_name, "w") as fd:
+            fd.write(s)
+        os.replace(tmp_name, ready_name)
     finally:
         # Copy back the original handlers (in case someone is logging into
         # root logger and has custom handlers), also when the build fails
